@@ -225,6 +225,8 @@ func builds() []Op {
 		b("interrupt:build:mid(dies in mid's body)", buildOpts{Target: tMid, Interrupt: "out/mid"}),
 		b("dry:top", buildOpts{Target: tTop, Dry: true}),
 		b("dry:mid", buildOpts{Target: tMid, Dry: true}),
+		b("build:top+gc(one load)", buildOpts{Target: tTop, GCAfterRun: true}),
+		b("build:leaf+gc(one load)", buildOpts{Target: tLeaf, GCAfterRun: true}),
 		b("gc:full", buildOpts{GC: true}),
 		b("gc:index", buildOpts{GC: true, PreferIndex: true}),
 	}
@@ -352,7 +354,7 @@ func alphabet(prop string, thorough bool) []Op {
 			return pick(all...)
 		}
 		return pick("edit:src/a.txt", "addremove:dir/w.txt", "target:pkg:other", "target:pkg:co:lon", "edge:top->leaf", "stray-files", "delete:gen/g.txt",
-			"build:top", "build:leaf", "build:colon", "gc:full", "gc:index")
+			"build:top", "build:leaf", "build:colon", "gc:full", "gc:index", "build:top+gc(one load)", "build:leaf+gc(one load)")
 	case "C18":
 		if thorough {
 			return pick(all...)
@@ -482,6 +484,15 @@ func (x *searcher) step(s *State, op Op) []*State {
 		x.checkOnce(s, n, o, res)
 	}
 	switch {
+	case o.GCAfterRun:
+		// judged as a build followed by a collection that sees the tree the build left
+		bres := *res
+		bres.After = res.AfterRun
+		x.checkBuild(s, n, o, &bres)
+		n.M.apply(res.Events, s.V, res.AfterRun)
+		mid := &State{V: s.V, Art: artOf(res.AfterRun), M: n.M, Crashed: s.Crashed, GCd: s.GCd, Hist: n.Hist}
+		gres := &buildResult{AfterLd: res.AfterRun, After: res.After, RunErr: res.GCErr, Events: res.Events, Executed: res.Executed}
+		x.checkGC(mid, n, buildOpts{GC: true}, gres)
 	case o.GC:
 		x.checkGC(s, n, o, res)
 	case o.Dry:
@@ -705,7 +716,7 @@ func main() {
 	}
 	ops := alphabet(*fProp, r.Thorough())
 	depth := 5
-	if len(ops) <= 12 && *fProp != "C18" {
+	if len(ops) <= 14 && *fProp != "C18" {
 		depth = 6
 	}
 	if r.Thorough() {
